@@ -111,7 +111,7 @@ def show(e, depth=4):
     if k == "arg":
         return "arg%d%s" % (e[1], e[2])
     if k == "local":
-        return "_%d%s" % (e[1], e[2])
+        return ("_%d%s" % (e[1], e[2])) if isinstance(e[1], int) else ("%s%s" % (e[1], e[2]))
     if k == "call":
         return "%s(%s)" % (re.sub(r"<[^<>]*>", "", e[1]).split("::")[-1] if "::" in e[1] else e[1], ", ".join(show(a, depth - 1) for a in e[2]))
     if k == "bin":
